@@ -264,6 +264,10 @@ let handle (line : string) : string =
   | "LASTSEP" ->
       let ops = p_ops () in
       "R " ^ hex_of_str (x_last_sep ops)
+  | "PRINT" ->
+      (* PRINT <ops> -> R <printable 0|1> <canonical text of the block> *)
+      let ops = p_ops () in
+      "R " ^ (if x_printable ops then "1" else "0") ^ " " ^ hex_of_str (x_print_block ops)
   | "PING" -> "R pong"
   | t -> "R error unknown request " ^ t
 
